@@ -28,6 +28,9 @@ func init() {
 		Workloads: []core.Workload{
 			{Name: "main", Variant: "plain", N: core.Tiered(41*42, 41*7*4*2*12), Run: c04Main},
 			{Name: "initstates", Variant: "plain", N: core.Tiered(180, 3000), Run: c04InitStates},
+			// generation-sized runs: the property holds for ALL cell counts; ow-sim hands several thousand cells to one Run.
+			// Counts sit on and beside powers of two and round numbers, where batching / chunking logic changes behaviour.
+			{Name: "manycells", Variant: "plain", N: core.Tiered(30, 41*15), Run: c04ManyCells, TimeoutS: 300},
 			{Name: "cbacked", Variant: "plain", N: core.Tiered(41*9, 41*60), Run: c04CBacked},
 		},
 	})
@@ -335,4 +338,23 @@ func c04CBacked(c *core.Ctx) {
 		c.Violate("params-modified", model, fmt.Sprintf("C-backed parameter buffer modified at %d", i))
 	}
 	c.Count("c_backed_runs", 1)
+}
+
+var c04BigNs = []int{255, 256, 257, 1000, 1023, 1024, 1025, 1500, 2047, 2048, 2049, 3000, 4095, 4097, 5000}
+
+func c04ManyCells(c *core.Ctx) {
+	names := ModelNames()
+	model := names[(c.Idx*7+int(c.R.Intn(len(names))))%len(names)]
+	N := c04BigNs[c.Idx%len(c04BigNs)]
+	P, B, T := c.R.IntRange(1, 5), c.R.IntRange(1, 7), c.R.IntRange(1, 3)
+	wc := 0
+	if needsWidthClass(model) {
+		wc = 1 + c.R.Intn(13)
+	}
+	run := GenRun(model, c.R, N, P, B, T, wc)
+	c.Begin(map[string]interface{}{"model": model, "run": run})
+	c.Class(fmt.Sprintf("manycells/%s/N%d", model, N))
+	c.Tag("manycells")
+	c.Max("largest_cell_count_in_one_run", float64(N))
+	checkVectorisedEqualsSingle(c, run, "")
 }
